@@ -237,8 +237,15 @@ pub struct ClientSpec {
     /// legal VarInt of at most five bytes, as some proxies write them)
     #[serde(default)]
     pub len_pad: u8,
+    /// Client Information fields other than the locale: (view distance, chat mode 0-2, main hand 0-1, particle status 0-2, displayed skin parts)
+    #[serde(default = "default_info")]
+    pub info: (i8, i32, i32, i32, u8),
     /// seed for the client's own padding / random tokens
     pub rng: u64,
+}
+
+fn default_info() -> (i8, i32, i32, i32, u8) {
+    (10, 0, 1, 0, 0x7f)
 }
 
 impl ClientSpec {
@@ -275,6 +282,7 @@ impl ClientSpec {
             coalesce: false,
             early_ack: false,
             len_pad: 0,
+            info: default_info(),
             rng: rng.next_u64(),
         }
     }
@@ -416,7 +424,7 @@ impl<'a> Engine<'a> {
                 KaId::Fixed(v) => v.to_be_bytes().to_vec(),
             },
             Body::ClientInfo { locale } => {
-                codec::client_info_body(locale, 10, 0, true, 0x7f, 1, false, true, 0)
+                codec::client_info_body(locale, self.spec.info.0, self.spec.info.1, true, self.spec.info.4, self.spec.info.2, false, true, self.spec.info.3)
             }
             Body::ResourcePack { result } => {
                 let mut b = 7u128.to_be_bytes().to_vec();
@@ -785,17 +793,7 @@ impl<'a> Engine<'a> {
                         },
                     );
                     if self.spec.send_info {
-                        let body = codec::client_info_body(
-                            &self.spec.locale,
-                            10,
-                            0,
-                            true,
-                            0x7f,
-                            1,
-                            false,
-                            true,
-                            0,
-                        );
+                        let body = codec::client_info_body(&self.spec.locale, self.spec.info.0, self.spec.info.1, true, self.spec.info.4, self.spec.info.2, false, true, self.spec.info.3);
                         self.at(
                             self.spec.ack_delay_ns + self.spec.info_delay_ns,
                             Action::Send {
@@ -892,7 +890,7 @@ impl<'a> Engine<'a> {
                 if self.spec.early_ack {
                     self.at(self.spec.ack_delay_ns, Action::Send { kind: "LoginAck", id: 0x03, body: vec![] });
                     if self.spec.send_info {
-                        let body = codec::client_info_body(&self.spec.locale, 10, 0, true, 0x7f, 1, false, true, 0);
+                        let body = codec::client_info_body(&self.spec.locale, self.spec.info.0, self.spec.info.1, true, self.spec.info.4, self.spec.info.2, false, true, self.spec.info.3);
                         self.at(self.spec.ack_delay_ns + self.spec.info_delay_ns, Action::Send { kind: "ClientInfo", id: 0x00, body });
                     }
                 }
